@@ -375,6 +375,33 @@ def released_field_rule(ctx, P):
             ctx.check(r, paths.must_pass(f, c, lambda e: e in st or e in gone), key(f, "%s#%d" % (pth, n)), f.where(c), "%s releases what `%s` points to and can return with the field unchanged: the next call that looks at it (decoder_free at the latest) uses and releases freed memory" % (f.name, pth))
 
 
+def vector_width_rule(ctx, P):
+    """the alignment's vectors count their entries in 16 bits: growing one is refused when the counters
+    cannot describe the result, and no capacity beyond 16 bits is ever stored"""
+    from .. import symx
+    r = ctx.rule("WIDTH.vector", "vector_grow_one, path by path over values: some path refuses (returns NULL) under a comparison with the 16-bit limit, and every capacity it stores is a constant within that limit or was compared with it on the path (a vector that cannot refuse wraps its count to 0 and hands out the slot before its storage)", floor=2)
+    f = P.fn("vector_grow_one", "ps_alignment.c")
+    ctx.touch(f)
+    cap = "*" + f.params[1][0]
+    refuses, wide, nst = False, None, 0
+    for pt in symx.run_paths(f, P):
+        lim = [k_ for k_, v_ in pt.atoms.items() if k_[0] == "<" and k_[1] == "65535"]
+        if pt.ret is not None and lin.p_str(pt.ret) == "0" and any(pt.atoms[k_] for k_ in lim):
+            refuses = True
+        for (pth, v_, n_) in pt.stores:
+            if pth != cap:
+                continue
+            nst += 1
+            vs = lin.p_str(v_)
+            const = v_.get((), 0) if all(m_ == () for m_ in v_) else None
+            if not ((const is not None and 0 < const <= 65535) or pt.atoms.get(("<", "65535", vs)) is False):
+                wide = (vs, n_)
+    if nst == 0:
+        raise AnalysisIncomplete("vector_grow_one no longer stores a capacity")
+    ctx.check(r, refuses, key(f, "refuses-at-limit"), f.where(f.root), "vector_grow_one never refuses: once a vector holds 65535 entries the 16-bit count wraps to 0, the slot handed out lies before the vector's storage and the alignment describes garbage")
+    ctx.check(r, wide is None, key(f, "capacity-fits"), f.where(wide[1]) if wide else f.where(f.root), "the capacity `%s` is stored in 16 bits without having been compared with the limit on this path" % (wide[0] if wide else ""))
+
+
 def align_text_rule(ctx, P):
     r = ctx.rule("TWIN.align-text", "decoder_set_align_text sizes the grammar from a count taken by the same tokeniser call (same delimiters) that the building pass uses, both passes advance the counter once per word from zero, and the transitions go from state k to k+1 of that counter", floor=5)
     f = P.fn("decoder_set_align_text", "decoder.c")
@@ -490,5 +517,6 @@ def run(ctx):
     empty_rule(ctx, P)
     align_text_rule(ctx, P)
     released_field_rule(ctx, P)
+    vector_width_rule(ctx, P)
     exit_rule(ctx, P)
     c14.run(ctx)
